@@ -5,6 +5,7 @@ import UscxmlVerif.Proofs.Root
 import UscxmlVerif.Proofs.ExitClosed
 import UscxmlVerif.Proofs.ParentsFast
 import UscxmlVerif.Proofs.EntryDoc
+import UscxmlVerif.Proofs.DownOk
 /-!
 # C02 — the active configuration is legal after every micro-step (the part that needs no assumption)
 
@@ -84,6 +85,24 @@ theorem step_keeps_parents (c : Chart) (hcoh : Proofs.Struct.Coherent c = true) 
     (hk : Proofs.EntryClosed.EntryOk c = true) (hp : Proofs.Parents.SelPlain c = true) (hpf : Proofs.ParentsFast.SelPlainF c = true)
     (eng : Engine) (e : EState) (h : Proofs.Parents.PC c e) : Proofs.Parents.PC c (engineStep eng c e).1 :=
   Proofs.ParentsFast.engineStep_pc c hcoh hi (Proofs.EntryClosed.eok_of_entryOk hk) hp hpf eng e h
+
+/-- **partial** (clauses 5 and 6 of `legal`, the "at least" halves, LargeMicroStep, history-free charts): after every sequence of API
+operations every active parallel state has all its children active and every active compound state has an active child state. The
+chart hypotheses are decidable (`DownOk`: completions and initial transitions point downwards in document order, `<initial>` elements
+precede their siblings, children lists are complete, ...) and evaluated on every generated chart. Not covered: "at most one child"
+of a compound state, FastMicroStep, charts with history states. -/
+theorem active_states_are_complete_partial (c : Chart) (hcoh : Proofs.Struct.Coherent c = true) (hi : Proofs.Interval.IntervalOK c = true)
+    (hk : Proofs.EntryClosed.EntryOk c = true) (hd : Proofs.DownOk.DownOk c = true) (hp : Proofs.Parents.SelPlain c = true)
+    (ops : List Op) : Proofs.Down.DownClosed c (run .large c ops).a.e.config :=
+  (Proofs.DownRun.run_dc c hcoh hi (Proofs.EntryClosed.eok_of_entryOk hk) (Proofs.DownOk.dok_of_downOk hd) hp ops).2
+
+/-- one step of LargeMicroStep keeps it, from any state that has the invariant -/
+theorem step_keeps_complete (c : Chart) (hcoh : Proofs.Struct.Coherent c = true) (hi : Proofs.Interval.IntervalOK c = true)
+    (hk : Proofs.EntryClosed.EntryOk c = true) (hd : Proofs.DownOk.DownOk c = true) (hp : Proofs.Parents.SelPlain c = true)
+    (e : EState) (h : Proofs.DownRun.DC c e) : Proofs.DownRun.DC c (Large.step c e).1 :=
+  Proofs.DownRun.large_step_dc c hcoh hi (Proofs.EntryClosed.eok_of_entryOk hk) (Proofs.DownOk.dok_of_downOk hd) hp e h
+
+example : Proofs.DownOk.DownOk Properties.C05.sample = true := by decide
 
 /-- the hypotheses hold of a concrete chart with a compound state and a transition out of it -/
 example : Proofs.EntryClosed.EntryOk Properties.C05.sample = true ∧ Proofs.Parents.SelPlain Properties.C05.sample = true ∧
